@@ -2,11 +2,12 @@
    [image rho rs rs'] says that the cluster list of rs' is the cluster list of rs with every
    cluster c replaced by rho c (any number of code points or bytes each). Proved so far for
    the operations whose results are characterised cluster-wise: Chars and its variants, Insert,
-   the three line-alignment functions, CollapseSpace and Wrap. *)
+   Delete, Overtype, the three line-alignment functions, CollapseSpace, Wrap, JustifyLine, the
+   two-column layout and the definitions table. *)
 From Coq Require Import List Bool ZArith Lia.
 Import ListNotations.
 From Rosed Require Import Base.Res Base.ListX Base.Utf8 Gem.Segment Gem.GString Model.Manip Model.Table Model.Options Model.Editor Model.Ops
-     Base.Str Check.Common Proofs.SeamP Proofs.C04P Proofs.C13P Model.Tb Proofs.C03P Proofs.C07Q Proofs.C03W.
+     Base.Str Check.Common Proofs.SeamP Proofs.C04P Proofs.C13P Model.Tb Proofs.C03P Proofs.C07Q Proofs.C03W Proofs.C03X Proofs.C03J Proofs.C03T Proofs.C15P Proofs.C06Q Proofs.C15Q Proofs.C12R Proofs.ImageP Base.Cls Inst.Go Inst.GoOk.
 Open Scope Z_scope.
 
 Theorem C03_chars : forall (C : Classifier) (U : Upper) rho rs rs' o ref s e, scalars rs -> scalars rs' -> image rho rs rs' ->
@@ -70,3 +71,129 @@ Theorem C03_wrap : forall (C : Classifier) (K : ClassifierOk) (U : Upper) (rho :
   Forall2 (image rho) (b_lines b) (b_lines b').
 Proof. intros C K U. exact wrap_image. Qed.
 Print Assumptions C03_wrap.
+
+(* Delete and Overtype: the same cluster positions are removed / overwritten in a text and in
+   its image, for all positions *)
+Theorem C03_delete : forall (C : Classifier) (U : Upper) rho rs rs' o ref s e, scalars rs -> scalars rs' -> image rho rs rs' ->
+  let cl := clusters rs in let '(s', e') := norm (zlen cl) s e in
+  delete s e (Ed (encode rs) o ref) =
+    Ok (Ed (encode (concat (firstn (Z.to_nat s') cl)) ++ encode (concat (skipn (Z.to_nat e') cl))) o ref) /\
+  delete s e (Ed (encode rs') o ref) =
+    Ok (Ed (encode (concat (map rho (firstn (Z.to_nat s') cl))) ++ encode (concat (map rho (skipn (Z.to_nat e') cl)))) o ref).
+Proof. intros C U. exact delete_image. Qed.
+Print Assumptions C03_delete.
+
+Theorem C03_overtype : forall (C : Classifier) (U : Upper) rho rs rs' o ref p x, scalars rs -> scalars rs' -> image rho rs rs' ->
+  let cl := clusters rs in let n := zlen cl in let p' := norm1 n p in
+  let stop := Z.min (p' + glen (decode x)) n in
+  overtype p x (Ed (encode rs) o ref) =
+    Ok (Ed (encode (concat (firstn (Z.to_nat p') cl)) ++ encode (decode x) ++ encode (concat (skipn (Z.to_nat stop) cl))) o ref) /\
+  overtype p x (Ed (encode rs') o ref) =
+    Ok (Ed (encode (concat (map rho (firstn (Z.to_nat p') cl))) ++ encode (decode x) ++ encode (concat (map rho (skipn (Z.to_nat stop) cl)))) o ref).
+Proof. intros C U. exact overtype_image. Qed.
+Print Assumptions C03_overtype.
+
+(* JustifyLine: when the collapsed line and its image consist of safe clusters each of which is
+   the single space or contains no space (what CollapseSpace leaves, C07), and the substitution
+   maps the space cluster, and nothing else, to the space cluster, the justified image is the
+   image of the justified line: same words, same gaps *)
+Theorem C03_justify_line : forall (C : Classifier) (K : ClassifierOk) (rho : list Z -> list Z),
+  (forall c, is_sp (rho c) = is_sp c) ->
+  forall text text' w c c' j j',
+  collapse_space text [10] = Ok c -> collapse_space text' [10] = Ok c' ->
+  all_safe c -> all_safe c' -> Forall sp_or_free (clusters c) -> Forall sp_or_free (clusters c') ->
+  image rho c c' ->
+  justify_line text w = Ok j -> justify_line text' w = Ok j' ->
+  image rho j j'.
+Proof. intros C K. exact justify_line_image. Qed.
+Print Assumptions C03_justify_line.
+
+(* the rows of the two-column layout: row k of the images is the image of row k, the right
+   column at the same cluster offset, when there is at least one space between the columns *)
+Theorem C03_two_column_rows : forall (C : Classifier) (K : ClassifierOk) (rho : list Z -> list Z), rho [SP] = [SP] ->
+  forall left left' right right' total k, 0 < total ->
+  Forall2 (image rho) left left' -> Forall2 (image rho) right right' ->
+  Forall all_safe left -> Forall all_safe left' -> Forall all_safe right -> Forall all_safe right' ->
+  Forall (fun l => glen l < total) left ->
+  image rho (row_of left right total k) (row_of left' right' total k).
+Proof. intros C K. exact rows_image. Qed.
+Print Assumptions C03_two_column_rows.
+
+(* InsertTwoColumns: both columns wrapped (C03_wrap), then laid out row by row *)
+Theorem C03_two_columns : forall (C : Classifier) (K : ClassifierOk) (U : Upper) (rho : list Z -> list Z),
+  rho [SP] = [SP] -> rho [HYPHEN] = [HYPHEN] -> (forall c, (first_rune (rho c) =? SP) = (first_rune c =? SP)) ->
+  forall lt rt lt' rt' gap width m ex sep ctl ctl' ctr ctr' lb lb' rb rb',
+  let '(W, lw, rw) := two_col_widths width gap m ex in
+  1 <= gap ->
+  collapse_space lt sep = Ok ctl -> collapse_space lt' sep = Ok ctl' -> all_safe ctl -> all_safe ctl' -> image rho ctl ctl' ->
+  collapse_space rt sep = Ok ctr -> collapse_space rt' sep = Ok ctr' -> all_safe ctr -> all_safe ctr' -> image rho ctr ctr' ->
+  wrap lt lw sep = Ok lb -> wrap lt' lw sep = Ok lb' -> wrap rt rw sep = Ok rb -> wrap rt' rw sep = Ok rb' ->
+  let rows (l r : block) := map (row_of (b_lines l) (b_lines r) (lw + gap)) (seq 0 (Nat.max (length (b_lines l)) (length (b_lines r)))) in
+  Forall2 (image rho) (rows lb rb) (rows lb' rb').
+Proof. intros C K U. exact two_columns_image. Qed.
+Print Assumptions C03_two_columns.
+
+(* texts that meet at a plain code point (class Other: a space, a hyphen, a border character):
+   their cluster lists are concatenated, so images of the parts make an image of the whole -
+   the tool behind every layout that glues user text to padding and decoration *)
+Theorem C03_image_app : forall (C : Classifier) (K : ClassifierOk) rho a a' b b',
+  meets a b -> meets a' b' -> image rho a a' -> image rho b b' -> image rho (a ++ b) (a' ++ b').
+Proof. intros C K. exact (image_app). Qed.
+Print Assumptions C03_image_app.
+
+(* the definitions table: the longest term is the same for the terms and for their images
+   (it is counted in clusters), and every row of every entry - term, padding, dash, first line
+   of the definition; continuation lines under it - is the image of the row *)
+Theorem C03_definitions_table : forall (C : Classifier) (K : ClassifierOk) (rho : list Z -> list Z),
+  rho [SP] = [SP] -> rho [HYPHEN] = [HYPHEN] ->
+  forall (defs defs' : list (list Z * list Z)) (rbs rbs' : list block),
+  Forall2 (fun d d' : list Z * list Z => image rho (decode (fst d)) (decode (fst d')) /\
+             word_ok (decode (fst d)) /\ word_ok (decode (fst d'))) defs defs' ->
+  Forall2 (fun rb rb' => Forall2 (image rho) (b_lines rb) (b_lines rb') /\ Forall all_safe (b_lines rb) /\ Forall all_safe (b_lines rb')) rbs rbs' ->
+  let longest := fold_left lg_step defs (-1) in
+  fold_left lg_step defs' (-1) = longest /\
+  Forall2 (Forall2 (image rho)) (map (fun p => entry longest (fst p) (snd p)) (combine defs rbs))
+                                (map (fun p => entry longest (fst p) (snd p)) (combine defs' rbs')).
+Proof. intros C K. exact deftable_entries_image. Qed.
+Print Assumptions C03_definitions_table.
+
+(* the premises of C03_justify_line can be met with the classifier regenerated from the Go
+   source: "ab c a" and the same line with every "a" replaced by "e" + U+0301 (two code points,
+   three bytes, one cluster); both justify to width 9 with the same gaps *)
+Definition C03_rho_ex (c : list Z) : list Z := match c with [x] => if x =? 97 then [101; 769] else c | _ => c end.
+Definition C03_t_ex : list Z := [97; 98; 32; 99; 32; 97].
+Definition C03_t_ex' : list Z := [101; 769; 98; 32; 99; 32; 101; 769].
+
+Example C03_justify_premises_met :
+  (forall c, is_sp (C03_rho_ex c) = is_sp c) /\
+  collapse_space C03_t_ex [10] = Ok C03_t_ex /\ collapse_space C03_t_ex' [10] = Ok C03_t_ex' /\
+  all_safe C03_t_ex /\ all_safe C03_t_ex' /\ Forall sp_or_free (clusters C03_t_ex) /\ Forall sp_or_free (clusters C03_t_ex') /\
+  image C03_rho_ex C03_t_ex C03_t_ex' /\
+  justify_line C03_t_ex 9 = Ok [97; 98; 32; 32; 32; 99; 32; 32; 97] /\
+  justify_line C03_t_ex' 9 = Ok [101; 769; 98; 32; 32; 32; 99; 32; 32; 101; 769].
+Proof.
+  assert (E1 : clusters C03_t_ex = [[97]; [98]; [32]; [99]; [32]; [97]]) by (vm_compute; reflexivity).
+  assert (E2 : clusters C03_t_ex' = [[101; 769]; [98]; [32]; [99]; [32]; [101; 769]]) by (vm_compute; reflexivity).
+  assert (Hc : forall r, In r [97; 98; 32; 99; 101] -> go_class_of r = Other).
+  { intros r Hr. cbn [In] in Hr. repeat (destruct Hr as [<-|Hr]; [vm_compute; reflexivity|]). destruct Hr. }
+  assert (H769 : go_class_of 769 = Extend) by (vm_compute; reflexivity).
+  assert (Hs : forall x, In x [97; 98; 32; 99; 101] -> forall t, starts_ok (x :: t)).
+  { intros x Hx t. cbn [starts_ok]. change (@class_of GoClassifier x) with (go_class_of x). rewrite (Hc x Hx). repeat split; discriminate. }
+  assert (He1 : forall x, In x [97; 98; 32; 99; 101] -> ends_ok [x]).
+  { intros x Hx. right. cbn [List.last]. change (@class_of GoClassifier x) with (go_class_of x). rewrite (Hc x Hx). discriminate. }
+  assert (He2 : ends_ok [101; 769]).
+  { right. cbn [List.last]. change (@class_of GoClassifier 769) with (go_class_of 769). rewrite H769. discriminate. }
+  split; [|split; [|split; [|split; [|split; [|split; [|split; [|split; [|split]]]]]]]].
+  - intro c. destruct c as [|x [|y c]]; try reflexivity. unfold C03_rho_ex. destruct (x =? 97) eqn:E; [|reflexivity].
+    cbn. unfold SP. destruct (x =? 32) eqn:E32; [lia|reflexivity].
+  - vm_compute; reflexivity.
+  - vm_compute; reflexivity.
+  - unfold all_safe. rewrite E1. repeat (apply Forall_cons; [split; [apply Hs|apply He1]; cbn [In]; tauto|]). apply Forall_nil.
+  - unfold all_safe. rewrite E2.
+    repeat (apply Forall_cons; [split; [apply Hs; cbn [In]; tauto|first [exact He2|apply He1; cbn [In]; tauto]]|]). apply Forall_nil.
+  - rewrite E1. repeat (apply Forall_cons; [first [left; reflexivity|right; repeat constructor; unfold SP; lia]|]). apply Forall_nil.
+  - rewrite E2. repeat (apply Forall_cons; [first [left; reflexivity|right; repeat constructor; unfold SP; lia]|]). apply Forall_nil.
+  - unfold image. rewrite E1, E2. reflexivity.
+  - vm_compute; reflexivity.
+  - vm_compute; reflexivity.
+Qed.
